@@ -132,6 +132,12 @@ impl Admin {
 pub open spec fn oracle_price(q: QuerierWrapper, feed: Seq<char>, key: Seq<char>) -> Uint128 {
     query_answer::<Uint128>(q, QueryView::Smart { addr: feed, payload: Payload::FeedQGetPrice { key } })
 }
+pub open spec fn oracle_price_ok(q: QuerierWrapper, feed: Seq<char>, key: Seq<char>) -> bool {
+    query_ok::<Uint128>(q, QueryView::Smart { addr: feed, payload: Payload::FeedQGetPrice { key } })
+}
+pub open spec fn oracle_twap_ok(q: QuerierWrapper, feed: Seq<char>, key: Seq<char>, interval: u64) -> bool {
+    query_ok::<Uint128>(q, QueryView::Smart { addr: feed, payload: Payload::FeedQGetTwapPrice { key, interval } })
+}
 pub open spec fn oracle_twap(q: QuerierWrapper, feed: Seq<char>, key: Seq<char>, interval: u64) -> Uint128 {
     query_answer::<Uint128>(q, QueryView::Smart { addr: feed, payload: Payload::FeedQGetTwapPrice { key, interval } })
 }
